@@ -182,8 +182,8 @@ Lemma proj_ev0_deferred ct m e slot srcs : In (EDeferred slot srcs) (proj_ev0 ct
 Proof.
   destruct e; cbn [proj_ev0]; try (intros [H|[]]; discriminate H).
   - destruct (keep_ct ct m name); [intros [H|[]]; discriminate H|intros []].
-  - destruct (filter (fun x => keep_ct ct m (fst x)) sources) as [|s0 l] eqn:E; [intros []|].
-    intros [[= <- <-]|[]]. exists sources. split; [reflexivity|symmetry; exact E].
+  - cbv zeta. destruct (table_delivered ct m slot0 (filter (fun x => keep_ct ct m (fst x)) sources)); [|intros []].
+    intros [[= <- <-]|[]]. exists sources. split; reflexivity.
 Qed.
 
 Lemma proj_ev_code T v ct m kc e c d : In c (proj_ev T v ct m kc e) -> code_delivers c d ->
@@ -193,7 +193,7 @@ Proof.
   destruct e as [name raw body| dp sy | slot srcs | attr | attr ms ml fs xr ces | attr k n dd es | |]; cbn [proj_ev proj_ev0] in Hin.
   - destruct (keep_ct ct m name); [destruct Hin as [<-|[]]; destruct Hd|destruct Hin].
   - destruct Hin as [<-|[]]. destruct Hd.
-  - destruct (filter (fun x => keep_ct ct m (fst x)) srcs); [destruct Hin|destruct Hin as [<-|[]]; destruct Hd].
+  - cbv zeta in Hin. destruct (table_delivered ct m slot (filter (fun x => keep_ct ct m (fst x)) srcs)); [destruct Hin as [<-|[]]; destruct Hd|destruct Hin].
   - destruct (keep_ct ct m attr); [destruct Hin as [<-|[]]; destruct Hd|destruct Hin].
   - destruct (keep_ct ct m attr); [|destruct Hin]. destruct Hin as [<-|[]].
     destruct kc as [cm|]; [|destruct Hd]. exists cm.
@@ -220,7 +220,7 @@ Proof.
     cbn [proj_member proj_ev proj_ev0] in Hin.
   - destruct (keep_ct (rt_class T) (v_class v) name); [destruct Hin as [H|[]]; discriminate H|destruct Hin].
   - destruct Hin as [H|[]]. discriminate H.
-  - destruct (filter (fun x => keep_ct (rt_class T) (v_class v) (fst x)) srcs); [destruct Hin|destruct Hin as [H|[]]; discriminate H].
+  - cbv zeta in Hin. destruct (table_delivered (rt_class T) (v_class v) slot (filter (fun x => keep_ct (rt_class T) (v_class v) (fst x)) srcs)); [destruct Hin as [H|[]]; discriminate H|destruct Hin].
   - destruct (keep_ct (rt_class T) (v_class v) attr); [destruct Hin as [H|[]]; discriminate H|destruct Hin].
   - destruct (keep_ct (rt_class T) (v_class v) attr); [destruct Hin as [H|[]]; discriminate H|destruct Hin].
   - destruct (keep_ct (rt_class T) (v_class v) attr); [destruct Hin as [H|[]]; discriminate H|destruct Hin].
@@ -305,6 +305,41 @@ Definition interleaved_statement : Prop :=
      (* interested in the type table only: its two rows, in order, by reading and by replaying *)
      /\ method_tables (spec_class tables v_only_lvtt (header_of w_interleaved) w_interleaved) = [[DExc [x1]; DTable sLV [(nLVTT, r1); (nLVTT, r3)]]]
      /\ method_tables (accept_class tables accept_tables_gen v_only_lvtt tree) = [[DExc [x1]; DTable sLV [(nLVTT, r1); (nLVTT, r3)]]].
+
+(* ---------- tables WITHOUT rows (the former finding F20b) ----------
+   w_rowless_locals: a Code whose only table is a LocalVariableTable without rows (javac -g writes these);
+   w_rowless_mixed:  a LocalVariableTable with one row next to a LocalVariableTypeTable without rows.
+   Reading the bytes and replaying the tree hand every visitor the same: the visitor interested in both tables is told
+   that there is a table (without rows / with the one row), a visitor interested in one of them is told about local
+   variables exactly when there is a row for it. *)
+Definition fLVT : str := snake nLVT. (* local_variable_table *)
+Definition v_only_lvt : visitor :=
+  mkVisitor true (t_interests class_table)
+    (fun _ => Some (t_interests field_table)) (fun _ => Some (t_interests method_table))
+    (fun _ => Some [fLVT]) (fun _ => Some (t_interests rc_table)).
+Definition w_mixed_attrs : list pattr := [mkP 4 12 (enc_table [r2]); mkP 8 2 [0;0]].
+Definition w_rowless_mixed : cls :=
+  mkC w_hdr2 [] [mkM 1 5 6 [AtCode 3 (elen (code_body 1 3 [177] 0 [] w_mixed_attrs)) 1 3 [177] 0 [] w_mixed_attrs]] [].
+
+Definition read_and_replay (c : cls) (v : visitor) (ds : list (list delivery)) : Prop :=
+  method_tables (spec_class tables v (header_of c) c) = ds
+  /\ method_tables (accept_class tables accept_tables_gen v (tree_of_cls c)) = ds.
+
+Definition rowless_statement : Prop :=
+  (wf_b tables w_rowless_locals = true /\ wf_b tables w_rowless_mixed = true)
+  /\ (replay_inexact tables accept_tables_gen (full_of w_rowless_locals) = false
+      /\ replay_inexact tables accept_tables_gen (full_of w_rowless_mixed) = false)
+  /\ (build false tables accept_tables_gen (full_of w_rowless_locals) = Ok (tree_of_cls w_rowless_locals)
+      /\ build false tables accept_tables_gen (full_of w_rowless_mixed) = Ok (tree_of_cls w_rowless_mixed))
+  /\ read_and_replay w_rowless_locals (v_full tables) [[DExc []; DTable sLV []]]
+  /\ read_and_replay w_rowless_locals v_only_lvt [[DExc []]]
+  /\ read_and_replay w_rowless_locals v_only_lvtt [[DExc []]]
+  /\ read_and_replay w_rowless_mixed (v_full tables) [[DExc []; DTable sLV [(nLVT, r2)]]]
+  /\ read_and_replay w_rowless_mixed v_only_lvt [[DExc []; DTable sLV [(nLVT, r2)]]]
+  /\ read_and_replay w_rowless_mixed v_only_lvtt [[DExc []]].
+
+Theorem rowless_holds : rowless_statement.
+Proof. unfold rowless_statement, read_and_replay. repeat split; vm_compute; reflexivity. Qed.
 
 Theorem interleaved_holds : interleaved_statement.
 Proof.
